@@ -78,7 +78,9 @@ func (r routecmd) build() []string {
 					weight = o[len("weight="):]
 
 				case strings.HasPrefix(o, "redirect="):
-					redir := strings.Split(o[len("redirect="):], ",")
+					// the url is everything after the first comma:
+					// it may contain commas itself
+					redir := strings.SplitN(o[len("redirect="):], ",", 2)
 					if len(redir) == 2 {
 						dst = redir[1]
 						ropts = append(ropts, fmt.Sprintf("redirect=%s", redir[0]))
